@@ -27,7 +27,7 @@ var anchorSigs = map[string]map[string]string{
 		"Bytes":              "()->([]byte)|()->([32]byte)",
 		"HashToFieldElement": "([48]byte)->(*Element)|(*[48]byte)->(*Element)|([]byte)->(*Element)|([48]byte)->()|(*[48]byte)->()",
 	},
-	"field.": {"Reduce": "(*NonMontgomeryDomainFieldElement)->(uint64)"},
+	"field.":  {"Reduce": "(*NonMontgomeryDomainFieldElement)->(uint64)"},
 	"scalar.": {"Invert": "(*MontgomeryDomainFieldElement,MontgomeryDomainFieldElement)->()"},
 }
 
